@@ -51,6 +51,20 @@ class Run:
         w = r[1]
         s.census_mark = 1
         s.tlog('ctor-returned')
+        if c.get('early') or c.get('forced'):
+            # two threads use this worker (one consumes, one closes / terminates): like any careful user they do not run two control
+            # operations on the same worker at once (pyworkers does not promise that the control connection of a remote worker can
+            # be shared by concurrent calls); blocking on the result stream itself happens outside the lock
+            from simos.sync import RLock
+            L = RLock()
+
+            def serialised(fn):
+                def call(*a, **k):
+                    with L:
+                        return fn(*a, **k)
+                return call
+            for name in ('is_alive', 'terminate', 'wait', 'close'):
+                setattr(w, name, serialised(getattr(w, name)))
         for x in c['items']:
             try:
                 if isinstance(x, list) and x and x[0] == 'kw':
